@@ -386,15 +386,43 @@ example : ∃ (H : Bytes → Bytes) (xs : List Bytes),
    [(List.replicate 32 2, List.replicate 32 1 ++ List.replicate 32 2)],
    by decide, by unfold NoCollVals; decide⟩
 
-/-- **C28 (header) — partial.** `GetMerkleHeader` and `Finalize` report the same header, and it
-    depends only on `(Len, Roots)` — not on the tree bucket or on earlier finalisations.
-    Full statement (NOT proved in Lean; checked on the real code by the oracle against an
-    independent batch definition for every generated history, and by the correspondence run):
-    for every history of `Add`/`SetLen` whose surviving sequence of hashes is `xs`,
-    `header = ⟨batchRoot xs, |xs|⟩` where `batchRoot` is the root of the minimal-height 16-ary
-    tree over `xs` (a single leaf is its own root), and `SetLen l` leaves exactly the state of
-    adding `xs.take l`. -/
-theorem header_is_function_of_sequence_partial (H : Bytes → Bytes) (a : Acc) (db : DB) :
+/-- **C28 (`SetLen`, the branches without a proof).** `SetLen l` with `l > Len` is an error and
+    changes nothing; `SetLen 0` gives the empty accumulator (the state of accumulating nothing,
+    header `⟨nil, 0⟩`); `SetLen Len` changes nothing. None of them writes the accumulator bucket. -/
+theorem setLen_edge_cases (H : Bytes → Bytes) (a : Acc) (db : DB) :
+    (∀ l, a.len < l → a.setLen H db l = (a, db, false, .err)) ∧
+    a.setLen H db 0 = ({ len := 0, roots := [] }, db, false, .ok) ∧
+    (a.len ≠ 0 → a.setLen H db a.len = (a, db, false, .ok)) := by
+  refine ⟨?_, ?_, ?_⟩
+  · intro l hl; simp [Acc.setLen, hl]
+  · simp [Acc.setLen]
+  · intro h; simp [Acc.setLen, h]
+
+/-- **C28 (rewind = prefix) — partial: the core of `SetLen`.** Let `t` be any sequence of
+    32-byte hashes and `m ≤ |t|`. Take one node per level `i` of the finalised tree of `t`, bottom
+    level first, for as many levels as `m` has base-16 digits — at level `i` the node in which
+    the prefix still has something pending (group `⌊m/16^i⌋/16`, which is the group on the path
+    to key `m-1`; any node when digit `i` of `m` is 0) — and cut node `i` to digit `i` of `m`
+    (`truncRoots`, the loop at the end of `SetLen`). The result is exactly `rootsOf (t.take m)`,
+    the roots `Add` builds for the first `m` hashes (`addAll_state`), so by
+    `header_is_function_of_sequence` the header afterwards is `⟨batch (t.take m), m⟩`.
+    Missing for the full statement `setLen_eq_prefix` (after any adds `xs` and `0 < l < Len`,
+    `SetLen l` returns `.ok` with state `{l, rootsOf (xs.take l)}`): the glue inside `SetLen`
+    — that `LevelFromLen l (+1 if powerOf16 l)` is the number of base-16 digits of `l`, and that
+    the last `lvl` elements of `Prove(l-1, 0)` (`pathNodes`, proved to be what `Prove` returns
+    in `proof_accepted`) are these nodes. That part is covered by the oracle (header after every
+    rewind = batch root of the prefix, all rewind points up to 300) and the model/code runs. -/
+theorem setLen_eq_prefix_partial (H : Bytes → Bytes) (hlen : ∀ x, (H x).length = 32)
+    (t : List Bytes) (ht : All32 t) (m : Nat) (hm : m ≤ t.length)
+    (ns : List Bytes) (js : List Nat) (hd : ns.length = hexDigits m) (hjs : js.length = ns.length)
+    (hns : ∀ i (hi : i < ns.length), ns[i] = node (T H t i) (js.getD i 0) ∧
+      ((m / 16 ^ i) % 16 ≠ 0 → js.getD i 0 = m / 16 ^ i / 16)) :
+    truncRoots ns m = some (rootsOf H (t.take m)) :=
+  truncRoots_path H hlen ns t m js ht hm hd hjs hns
+
+/-- `GetMerkleHeader` and `Finalize` report the same header for any accumulator state, and it
+    depends only on `(Len, Roots)` — not on the tree bucket or on earlier finalisations. -/
+theorem header_eq_finalize (H : Bytes → Bytes) (a : Acc) (db : DB) :
     a.header H = (a.finalize H db).map Prod.fst := by
   unfold Acc.header Acc.finalize
   have := carryFold_carry_eq H a.roots none [] db
